@@ -39,8 +39,8 @@ for _st in STAGES:
     DIRECTED.append(dict(cfg=('core_maths', 3), kind='fit', stage=_st, P_obs=2, P_first=2, ipe=True, ops=['pipe_other_basis', 'gen_other']))
 for _st in STAGES:
     DIRECTED.append(dict(cfg=('core_maths', 3), kind='fit', stage=_st, P_obs=1, P_first=1, ipe=False, ipe_mode='mixed', ops=['pipe_same', 'pipe_same', 'restart:1']))
-    DIRECTED.append(dict(cfg=('core_maths', 4), kind='fit', stage=_st, P_obs=1, P_first=2, ipe=False, mock=True, ops=['gen_same_basis', 'pipe_same', 'pipe_same']))
-    DIRECTED.append(dict(cfg=('core_maths', 3), kind='fit', stage=_st, P_obs=2, P_first=2, ipe=False, mock=True, ops=['pipe_same', 'pipe_other_basis']))
+    DIRECTED.append(dict(cfg=('core_maths', 4), kind='fit', stage=_st, P_obs=1, P_first=1, ipe=False, mock=True, rebuild=True, ops=['gen_same_basis', 'pipe_same', 'pipe_same']))
+    DIRECTED.append(dict(cfg=('core_maths', 3), kind='fit', stage=_st, P_obs=2, P_first=2, ipe=False, mock=True, rebuild=True, ops=['pipe_same', 'pipe_other_basis']))
 for _cfg in (('core_maths', 3), ('core_maths', 4)):
     for _P in (1, 2):
         DIRECTED.append(dict(cfg=_cfg, kind='gen', P_obs=_P, P_first=_P, ops=['gen_faulty_inproc']))
@@ -131,7 +131,7 @@ def draw_history(seed, i, quick, recipe=None):
 
     def need_like(name, lk):
         # users often build a new likelihood object per complexity / per stage call: rebuild it half of the time
-        if name not in likes_here or rng.random() < 0.5:
+        if name not in likes_here or recipe.get('rebuild') or rng.random() < 0.5:
             cur().append(['like', dict(lk, name=name)])
             likes_here.add(name)
     ipe_mode = recipe.get('ipe_mode') or ('all' if ipe else rng.choice(['none', 'none', 'mixed']))
